@@ -227,6 +227,9 @@ def run(ctx):
         nv = dlrules.verdict_gates(ck, prog, config, 'C02-f', VERDICT_TABLE)
         ck.min_instances('positive-verdict exits of the verdict functions', nv, 4)
         dlrules.digest_intact(ck, prog, config, 'C02-f', [t[0] for t in VERDICT_TABLE])
+        # ---- j  nothing on the read path keeps data in static storage (one object per process: another context's bytes)
+        from . import c19 as _c19
+        _c19.shared_scratch(ck, prog, config, 'C02-j', ('zck_read', 'zck_read_header', 'zck_close'), 'read path')
         # ---- d
         pairing(ck, prog, 'comp_read', ('read_data', 1, None),
                 [('hash_update', 2, 3, 'check_chunk_hash'), ('hash_update', 2, 3, 'check_full_hash'),
